@@ -94,6 +94,23 @@ impl C16 {
                     acc.violation("C16|undefined-label-not-reported", case, witness("the program uses an undefined label but the analysis succeeded", None));
                     return;
                 }
+                // a label defined twice must stop the analysis with an error naming it
+                if let Some((name, first, second)) = defs.iter().enumerate().find_map(|(i, (l, ln))| defs[..i].iter().find(|(p, _)| p == l).map(|(_, pl)| (l.clone(), *pl, *ln))) {
+                    let between: Vec<&str> = text.lines().skip(first + 1).take(second - first - 1).map(|x| x.trim()).collect();
+                    let shape = if between.iter().all(|x| x.is_empty() || x.ends_with(':')) {
+                        "definitions-adjacent"
+                    } else if between.iter().all(|x| x.is_empty() || x.ends_with(':') || x.starts_with('.')) {
+                        "only-directives-between"
+                    } else {
+                        "code-between"
+                    };
+                    acc.violation(
+                        format!("C16|duplicate-label-not-reported|{shape}"),
+                        case,
+                        witness(&format!("label {name} is defined on lines {} and {} but the analysis succeeded", first + 1, second + 1), None),
+                    );
+                    return;
+                }
                 acc.outcome("analysed", case);
             }
             Err(_) => {
